@@ -21,6 +21,7 @@
 #include "icinga/host.hpp"
 #include "icinga/service.hpp"
 #include "remote/apiuser.hpp"
+#include "remote/apilistener.hpp"
 #include "remote/filterutility.hpp"
 #include "remote/eventqueue.hpp"
 #include "remote/consolehandler.hpp"
@@ -36,7 +37,24 @@ static bool l_SbMarkHit = false;
 static Value SbMarkFn(const std::vector<Value>&) { l_SbMarkHit = true; return Empty; }
 static const char *SB_PASSWORD = "sbSECRETpw";
 static const char *SB_SALT = "sbSALTval";
+static const char *SB_SALT_FIELD = "sbSALTfld";     // ApiListener.ticket_salt of the registered (never started) listener "sbapi"
 static bool l_SbInit = false;
+
+// the live shared containers the purity probes hand to every whitelisted function: unsorted, with duplicates, nested,
+// empty, length 1, arrays of dictionaries / of arrays - as globals and as attributes of a config object
+static const char *SB_GLOBALS_SCRIPT =
+	"globals.SbArr = [ 3, 1, 2 ]\n"
+	"globals.SbDict = { a = 1, b = \"two\" }\n"
+	"globals.SbArrU = [ \"oncall\", \"manager\", \"cto\" ]\n"
+	"globals.SbDup = [ 2, 1, 2, 1 ]\n"
+	"globals.SbNest = { list = [ 3, 1, 2 ], d = { z = 1, a = [ 9, 8 ] } }\n"
+	"globals.SbDicts = [ { k = 2 }, { k = 1 } ]\n"
+	"globals.SbAoa = [ [ 5, 4 ], [ 2, 1, 3 ] ]\n";
+static const char *SB_HOSTVARS =
+	"{ arr = [ 1, 2 ], dict = { k = \"v\" }, os = \"linux\", boot_order = [ \"web\", \"db\", \"app\" ], dups = [ 3, 1, 3, 2, 1 ], "
+	"nested = { inner = { list = [ 9, 7, 8 ] }, z = 1 }, dicts = [ { k = 2 }, { k = 1 } ], aoa = [ [ 2, 1 ], [ 0 ], [ 6, 5, 4 ] ], "
+	"empty_arr = [], one = [ 5 ], empty_dict = {}, strs = [ \"b\", \"a\", \"b\" ] }";
+static const char *SB_HOSTGROUPS = "[ \"sbg_linux\", \"sbg_dmz\", \"sbg_berlin\" ]";
 
 static void SbInitOnce()
 {
@@ -44,21 +62,41 @@ static void SbInitOnce()
 	l_SbInit = true;
 	std::ostringstream c;
 	c << "const TicketSalt = \"" << SB_SALT << "\"\n"
-	  << "globals.SbArr = [ 3, 1, 2 ]\n"
-	  << "globals.SbDict = { a = 1, b = \"two\" }\n"
+	  << SB_GLOBALS_SCRIPT
 	  << "namespace SbNs { x = 1 }\n"
 	  << "object CheckCommand \"sbcmd\" { command = [ \"/bin/true\" ] }\n"
+	  << "object HostGroup \"sbg_linux\" { }\nobject HostGroup \"sbg_dmz\" { }\nobject HostGroup \"sbg_berlin\" { }\n"
 	  << "template Host \"sbtmpl\" { check_command = \"sbcmd\" }\n"
 	  << "object Host \"sbh\" { import \"sbtmpl\"\n  enable_active_checks = false\n  address = \"127.0.0.1\"\n"
-	  << "  vars.arr = [ 1, 2 ]\n  vars.dict = { k = \"v\" }\n  vars.os = \"linux\" }\n"
+	  << "  groups = " << SB_HOSTGROUPS << "\n  vars = " << SB_HOSTVARS << " }\n"
 	  << "object Service \"sbs\" { host_name = \"sbh\"\n  check_command = \"sbcmd\"\n  enable_active_checks = false }\n"
 	  << "object ApiUser \"sbu\" { password = \"" << SB_PASSWORD << "\"\n  permissions = [ \"*\" ] }\n"
 	  // a user whose permission carries a FILTER: FilteredAddTarget then evaluates the permission filter before the user's
 	  << "object ApiUser \"sbu2\" { password = \"" << SB_PASSWORD << "\"\n  permissions = [ { permission = \"objects/query/Host\", filter = {{ host.name == \"sbh\" }} } ] }\n";
 	LoadConfig(c.str());
 	ScriptGlobal::Set("sbmark", new Function("sbmark", SbMarkFn, {}, true));
+	// an ApiListener object that scripts can find (get_object(ApiListener, "sbapi")): registered, never configured or started
+	{
+		ApiListener::Ptr l = new ApiListener();
+		l->SetName("sbapi");
+		l->SetTicketSalt(SB_SALT_FIELD);
+		l->Register();
+	}
 	std::ofstream f(ScratchDir() + "/data/sbfile.txt");
 	f << "protected file\n";
+}
+
+// after a probe that CHANGED protected state (already a violation): put the shared containers back, so that the probes that
+// follow in the same process again meet unsorted / complete containers (unsandboxed, harness-owned frame)
+static void SbRestoreFixture()
+{
+	try {
+		std::ostringstream c;
+		c << SB_GLOBALS_SCRIPT << "var h = get_object(Host, \"sbh\")\nh.vars = " << SB_HOSTVARS << "\nh.groups = " << SB_HOSTGROUPS << "\n";
+		std::unique_ptr<Expression> expr = ConfigCompiler::CompileText("<sb-restore>", c.str());
+		ScriptFrame frame(true);
+		expr->Evaluate(frame);
+	} catch (const std::exception&) { }
 }
 
 // ------------------------------------------------------------------ deep snapshot
@@ -205,7 +243,7 @@ static std::string DiffSnap(const SbSnap& a, const SbSnap& b)
 
 static bool HasSecret(const std::string& s)
 {
-	return s.find(SB_PASSWORD) != std::string::npos || s.find(SB_SALT) != std::string::npos;
+	return s.find(SB_PASSWORD) != std::string::npos || s.find(SB_SALT) != std::string::npos || s.find(SB_SALT_FIELD) != std::string::npos;
 }
 
 // ------------------------------------------------------------------ live enumeration
@@ -387,6 +425,7 @@ VOP(sb_probe)
 	else r = RunConsole(code, session);
 	SbSnap after = Snapshot(mode == "console" ? session : "");
 	std::string diff = DiffSnap(before, after);
+	if (!diff.empty() && a.num("restore", 0) != 0) SbRestoreFixture();
 	bool hidden = HasSecret(r.text) || (leak && r.res == "ok" && r.truthy);
 	std::string verdict = "-";
 	if (marker)
